@@ -139,6 +139,7 @@ func (c *containerServer) sendLoop() {
 				c.socketError(err)
 				return
 			}
+			verifEvent("cont", "send", verifReplyKind(rep.Reply, rep.Msg))
 			if rep.Done != nil {
 				close(rep.Done)
 			}
@@ -154,6 +155,7 @@ func (c *containerServer) recvLoop() {
 			c.socketError(err)
 			return
 		}
+		verifEvent("cont", "recv", verifCmdKind(cmd))
 		c.recvCh <- recvCmd{
 			Cmd: cmd,
 			Msg: msg,
